@@ -79,6 +79,8 @@ SEEDS = {
  "C03-D": ("actions", "C03,C02,C13", "two subscriptions on one topic, snapshot seek on one: the un-ack update is scoped by the snapshot's topic, so the bystander's acked messages come back"),
  "C10-C": ("actions", "C10", "regression of F2 through another slip (`break` for `continue` in WakePublishListeners): one zero-deadline nack spanning two subscriptions, waiter on the later one"),
  "C10-D": ("actions", "C10", "a pull waiting on the DEAD-LETTER subscription while a forward arrives: the wake-up moved from deliverToSubscription into PublishMessage only"),
+ "C09-C": ("actions", "C09", "the request context cancelled after the last statement and before COMMIT (database/sql has already rolled back): DoTx now swallows the ErrTxDone of Commit and reports success for work that was not stored"),
+ "C09-D": ("actions", "C09", "a statement-level failure exactly at the dead-letter topic lookup (or its subscriptions load) of a due dead-letter move: the error is treated like `topic deleted`, the delivery is completed without a forward and the transaction commits"),
 }
 only = sys.argv[1:]
 for sid, (pkg, checks, needs) in SEEDS.items():
